@@ -795,7 +795,7 @@ func check(prop, tier string, seed int64, replay string, budget time.Duration, w
 
 	// Phase 3b: the auxiliary race-detector mode (C13 only).
 	var raceInfo map[string]interface{}
-	if prop == "C13" && os.Getenv("VERIF_SKIP_RACE") == "" {
+	if prop == "C13" && os.Getenv("VERIF_SKIP_RACE") == "" && exit == 0 {
 		rb := budget / 2
 		if rb < 8*time.Second {
 			rb = 8 * time.Second
@@ -971,7 +971,7 @@ func racePhase(seed int64, budget time.Duration, workers int, outDir string) (re
 			defer wg.Done()
 			for round := 0; time.Now().Before(deadline); round++ {
 				from := (round*workers + wi) * per
-				out, code := runRace(bin, seed, from, per, outDir, 5*time.Minute)
+				out, code := runRace(bin, seed, from, per, outDir, 2*time.Minute)
 				done := strings.Count(out, "RACE-RUN-DONE")
 				mu.Lock()
 				workloads += done
